@@ -569,6 +569,56 @@ func c17DRA(r *ev.Rec) {
 		noteDiverged(l, ex, "dra-case")
 		l.Transitions += int64(ex.Points)
 	})
+	// ... and while any one API READ of the pass fails once (claims, slices and device classes are looked up while the
+	// pass decides): ordered batches of <=2 pods, sequential; a pass may allocate less, what it reports is judged alike
+	var bl2 [][]int
+	for _, b := range bl {
+		if len(b) <= 2 {
+			bl2 = append(bl2, b)
+		}
+	}
+	enum.Run(r, enum.Size(len(ws), len(bl2)), func(idx int64, l *ev.Local) {
+		d := enum.Odo(idx, len(ws), len(bl2))
+		c := draCase{world: d[0], batch: bl2[d[1]], pref: options.PreferencePolicyRespect}
+		ex := &explore.Explorer{Bound: 1, MaxExecs: 2000}
+		ex.Exec = func(run *explore.Run) {
+			defer func() {
+				if p := recover(); p != nil {
+					if _, ok := p.(explore.Diverged); ok {
+						panic(p)
+					}
+					l.Violation("dra: scheduler panicked (while a read failed)", fmt.Sprintf("panic: %v  [%s]", p, c.String(ws)), map[string]any{"case": c.String(ws), "stack": string(debug.Stack())})
+				}
+			}()
+			env := buildDRA(ws[c.world], c)
+			senv := &SchedEnv{W: env.w}
+			taken := env.w.AttachFaultsOpt(run, func(cl *world.Call) bool { return cl.Verb == "get" || cl.Verb == "list" }, false)
+			senv.Between = func() { env.w.Client.Hook, env.w.CP.Hook = nil, nil }
+			out := senv.runPass(explore.Replay(nil), 1)
+			env.w.Client.Hook, env.w.CP.Hook = nil, nil
+			l.Eval()
+			l.Traces++
+			if out.Err != nil {
+				l.Outcome("dra read-fault: schedule-error")
+				return
+			}
+			var faults []string
+			for _, f := range *taken {
+				faults = append(faults, f.Call+"="+f.Fault)
+			}
+			viol, n := env.judgeDRA(out)
+			if n > 0 && len(faults) > 0 {
+				l.NontrivialH(ev.H(fmt.Sprintf("drarf/%d/%v/%s", idx, faults, out.Digest)))
+			}
+			l.Outcome(fmt.Sprintf("dra read-fault: claims allocated=%v", n > 0))
+			for _, v := range viol {
+				l.Violation(v.Sig+" (while a read failed)", v.Msg+fmt.Sprintf("  [%s; failing reads %v]", c.String(ws), faults), map[string]any{"case": c.String(ws), "faults": faults, "plan": run.Plan(), "outcome": out.Digest})
+			}
+		}
+		ex.Explore()
+		noteDiverged(l, ex, "dra-read-fault")
+		l.Transitions += int64(ex.Points)
+	})
 }
 
 var _ = v1.NodePoolLabelKey
